@@ -451,6 +451,18 @@ func runConc(r *lib.Run, det caseDetail, rounds [][]lib.HStep) *hist {
 	h := &hist{r: r, ex: ex, det: det}
 	n := 0
 	for _, round := range rounds {
+		// refresh ticks only touch activeVolumeCount (not named by the statement); they are taken
+		// out of the concurrent part and issued at the barrier
+		ticks := 0
+		var msgs []lib.HStep
+		for _, st := range round {
+			if st.Kind == "tick" {
+				ticks++
+			} else {
+				msgs = append(msgs, st)
+			}
+		}
+		round = msgs
 		if err := ex.Concurrent(round); err != nil {
 			r.Inconclusive(fmt.Sprintf("%s history %d: harness step failed: %v", det.Part, det.Hist, err))
 			return h
@@ -470,6 +482,10 @@ func runConc(r *lib.Run, det caseDetail, rounds [][]lib.HStep) *hist {
 			}
 		}
 		h.check(lib.HStep{Kind: "barrier"}, lib.BeatInfo{Parts: bi.Parts}, nil)
+		if ticks > 0 {
+			ex.M.RefreshTick()
+			h.check(lib.HStep{Kind: "tick"}, lib.BeatInfo{}, nil)
+		}
 		countTags(r, round)
 	}
 	_ = ex.CloseAll()
@@ -539,6 +555,16 @@ func main() {
 		}
 	}
 
+	if r.Replay != "" && os.Getenv("VERIF_CHILD_OUT") == "" {
+		// a process that hosts the master ends with the race detector's exit code (the master
+		// has start-up races of its own), so the replay runs in a child like every other part
+		self := os.Getenv("VERIF_SELF")
+		if self == "" {
+			self, _ = os.Executable()
+		}
+		r.RunChild("replay", self, nil, "--replay", r.Replay)
+		r.Finish(0)
+	}
 	if r.Replay != "" {
 		var d caseDetail
 		r.Must(r.LoadReplay(&d), "load replay")
